@@ -387,11 +387,96 @@ fn c06_async_client(case: &Case) {
     if simkernel::choose(6) == 0 {
         return c06_timeout_with_held_siblings(case);
     }
+    if simkernel::choose(8) == 0 {
+        return c06_cancel_queued(case);
+    }
     match simkernel::choose(4) {
         0 | 1 => c06_fault(case),
         2 => c06_timeout_race(case),
         _ => c06_cancel(case),
     }
+}
+
+/// A call is abandoned while it is still *queued behind* a sibling whose large request is
+/// parked in back-pressure (the server is not reading yet): not one byte of the abandoned
+/// call ever reached the wire, so once the server reads on, the sibling and every later call
+/// must complete.
+fn c06_cancel_queued(case: &Case) {
+    let big = pick(&[200_000usize, 600_000]);
+    let stall_ms = pick(&[20u64, 200]);
+    let n_victims = range(1, 3);
+    let cancel_polls = range(1, 4);
+    case.sample(json!({"scenario": "cancel-while-queued-for-the-writer", "sibling_request_bytes": big, "server_starts_reading_after_ms": stall_ms, "victims": n_victims, "cancel_at_poll": cancel_polls}));
+    net::set_config(NetConfig { capacity: pick(&[8_192usize, 65_536]), lat_min: 0, lat_max: pick(&[0u64, 50_000]), max_segment: 0 });
+    let case = case.clone();
+    aio::run(&case.clone(), 3_600, async move {
+        let listener = TcpListener::bind("127.0.0.1:0").await.unwrap();
+        let addr = listener.local_addr().unwrap();
+        let server = tokio::spawn(async move {
+            let Ok((s, _)) = listener.accept().await else { return };
+            let (rd, mut wr) = s.into_split();
+            sleep_ms(stall_ms).await;
+            let mut fr = FrameReader::new(rd);
+            while let Ok(Some(f)) = fr.next().await {
+                if aio::write_all(&mut wr, &echo_of(&f).encode()).await.is_err() {
+                    return;
+                }
+            }
+        });
+        let client = match AsyncClient::connect(addr).await {
+            Ok(c) => c,
+            Err(e) => {
+                case.harness_error(format!("connect failed: {e}"));
+                return;
+            }
+        };
+        let conn = net::connections().last().cloned();
+        let c2 = client.clone();
+        let sibling = tokio::spawn(async move { do_call(&c2, CallKind::Raw(big), 1, None).await });
+        // wait until the sibling's frame is partly on the wire: it holds the writer and is parked
+        let mut parked = false;
+        for _ in 0..stall_ms.saturating_sub(2).min(10) {
+            sleep_ms(1).await;
+            let on_wire = conn.as_ref().map(|c| net::tap_of(c, Side::A).len()).unwrap_or(0);
+            if on_wire > 0 && on_wire < big {
+                parked = true;
+                break;
+            }
+        }
+        if !parked {
+            let _ = sibling.await;
+            return;
+        }
+        for _ in 0..n_victims {
+            let call = client.call_with_formats("/echo/victim", 1, Some(b"victim-body"), 0);
+            let out = timeout(Duration::from_millis(1), CancelAfter::new(call, cancel_polls)).await.ok().flatten();
+            case.check(out.is_none(), "harness", || "a call queued behind a parked write completed".into());
+        }
+        let on_wire = conn.as_ref().map(|c| net::tap_of(c, Side::A).len()).unwrap_or(0);
+        if on_wire >= big {
+            // the sibling got through meanwhile: the victims may have held the writer after all
+            let _ = sibling.await;
+            return;
+        }
+        case.probe("call_cancelled_while_queued_for_the_writer");
+        match timeout(Duration::from_secs(120), sibling).await {
+            Err(_) => case.fail("hang", "the call whose write was parked never returned"),
+            Ok(Ok(Err(e))) => case.fail(if e.starts_with("WRONG-RESPONSE") { "wrong-response" } else { "unrelated-call-failed" }, format!("sibling of a call cancelled before it wrote anything: {e}")),
+            Ok(Err(e)) => case.fail("panic", format!("caller task failed: {e}")),
+            Ok(Ok(Ok(()))) => {}
+        }
+        match timeout(Duration::from_secs(120), do_call(&client, CallKind::Json, 777, None)).await {
+            Err(_) => case.fail("hang", "a call after a cancelled call never returned"),
+            Ok(Err(e)) => case.fail(if e.starts_with("WRONG-RESPONSE") { "wrong-response" } else { "unrelated-call-failed" }, format!("call after a call that was cancelled before it wrote anything: {e}")),
+            Ok(Ok(())) => {}
+        }
+        let wire = conn.as_ref().map(|c| split_stream(&net::tap_of(c, Side::A))).unwrap();
+        case.check(!wire.frames.iter().any(|f| f.query_str().ends_with("/victim")), "cancelled-call-sent", || "a call abandoned while queued for the writer was written anyway".into());
+        case.check(client.verif_pending_len() == 0, "pending-residue", || format!("{} pending entries after cancellation", client.verif_pending_len()));
+        drop(client);
+        let _ = server.await;
+        case.nontrivial();
+    });
 }
 
 fn c06_fault(case: &Case) {
